@@ -801,9 +801,20 @@ def symlist_method(I, ctx, o, name):
     if name == "__len__":
         return B_(lambda ctx: B.wrap(B._z(o.seq.length)))
     if name == "index":
-        hook = I.ext.get("__symlist_index_hook__")
-        if hook:
-            return B_(lambda ctx, x: hook(I, ctx, o, x))
+        def index(ctx, x):
+            import z3
+            seq = o.seq
+            n = B._z(seq.length)
+            q = z3.Int(ctx.fresh_name("ix_q"))
+            present = z3.Exists([q], z3.And(q >= 0, q < n, B._zb(B.eq_formula(I, ctx, seq.elem(q), x))))
+            if not ctx.branch(present):
+                raise I.raise_exc("ValueError")
+            i = ctx.fresh_int("index")
+            body = B._zb(B.eq_formula(I, ctx, seq.elem(q), x))
+            ctx.assume(z3.And(i >= 0, i < n, B._zb(B.eq_formula(I, ctx, seq.elem(i), x))))
+            ctx.assume(z3.ForAll([q], z3.Implies(z3.And(q >= 0, q < i), z3.Not(body))))
+            return B.wrap(i)
+        return B_(index)
     return None
 
 
